@@ -65,10 +65,19 @@ SubVals ==
                    Conn("S", <<Conn("P", <<Default(SymR), Default(SymC)>>)>>),
                    Conn("S", <<[Default(SymTlm) EXCEPT !.subs[1] = SubDef(<<"X", "_", "1">>, FALSE, Conn("S", <<Default(SymC), Default(SymL)>>))]>>),
                    SubDefs(SymTlm)[1].con}}
-SubLeaves ==
+SubLeavesPlain ==
     {[Default(SymTlm) EXCEPT !.subs[1] = x, !.subs[3] = za] :
         x \in SubVals,
         za \in {SubDefs(SymTlm)[3], SubDef(<<"Z", "_", "A">>, FALSE, NoConn), SubDef(<<"Z", "_", "A">>, FALSE, Conn("S", <<Default(SymC)>>))}}
+\* ... and labelled containers (the label follows the last definition, which may be a bare list)
+SubLeaves ==
+    SubLeavesPlain
+    \cup {[Default(SymTlm) EXCEPT !.subs[1] = x, !.label = <<"t">>] :
+            x \in {SubDef(<<"X", "_", "1">>, FALSE, Conn("S", <<Default(SymR), Default(SymC)>>)),
+                   SubDef(<<"X", "_", "1">>, FALSE, Conn("S", <<Default(SymC)>>)),
+                   SubDef(<<"X", "_", "1">>, FALSE, Conn("P", <<Default(SymR), Default(SymC)>>))}}
+    \cup {[Default(SymTlm) EXCEPT !.subs[5] = SubDef(<<"Z", "e", "t", "a">>, FALSE, Conn("S", <<Default(SymR), Default(SymQ)>>)), !.label = <<"z">>,
+                                   !.ps[1] = PDef(<<"L">>, Dec(FALSE, 1, -24), Dec(FALSE, 25, -1), PInf, TRUE)]}
 
 SpecialLeaves ==
     CASE Focus = "shapes" -> {}
